@@ -18,8 +18,8 @@
  ],
  'params': {'OP': [0, 1, 2]},
  'clauses': 'cyclic_buffer<char> (extracted): cyclic_buffer(size) [OP 0] and resize(size) [OP 2] give an array of exactly `size` slots and a counter over [0, size); '
-            'push(v) [OP 1] from every counter position stores v in the slot one step after the counter (wrapping), returns the sample it overwrites and keeps the counter in [0, size); '
-            'afterwards operator[](0) is v and operator[](i), 0 <= i < size, addresses slot (counter - i) mod size = the i-th previous sample, for every size (not only powers of two); '
+            'push(v) [OP 1] from every counter position keeps the counter in [0, size); afterwards operator[](0) is v and operator[](i), 1 <= i < size, is what operator[](i-1) was before the push '
+            '(the i-th previous sample, wrap-around included, for every size - not only powers of two), for the const and the non-const overload alike; a full buffer returns the sample it evicts; '
             'size() counts pushes up to the capacity',
  'witness': {'unwind': 8},
  'assumptions': ['T = char; 1 <= size <= 2^30 (ring_counter stores the size in an int)'],
@@ -46,16 +46,18 @@ void harness(void)
 #else
     __CPROVER_assume(counter >= 0 && (uint)counter < size && cnt <= size);
     cb.data.m_data = NEW_OBJ(size); cb.data.m_size = size; cb.counter.size = (int)size; cb.counter.counter = counter; cb._size = cnt;
-    int slot = (uint)counter + 1 == size ? 0 : counter + 1;
-    char old = cb.data.m_data[slot];
-    char r = cyclic_buffer_push(&cb, v);
-    __CPROVER_assert(cb.counter.counter == slot && cb.counter.size == (int)size, "push: counter steps forward by one, wrapping, stays in [0,size)");
-    __CPROVER_assert(r == old && cb.data.m_data[slot] == v, "push: returns the overwritten sample, stores the new one");
-    __CPROVER_assert(cb._size == (cnt < size ? cnt + 1 : size), "size() counts pushes up to the capacity");
+    /* stated over the VIEW (the i-th previous sample as the accessors report it), not over the slot numbering: which slot the counter
+       names is an implementation choice */
     __CPROVER_assume(i >= 0 && (uint)i < size);
-    char *expect = cb.data.m_data + (slot >= i ? slot - i : slot - i + (int)size);
-    __CPROVER_assert(cyclic_buffer_at(&cb, i) == *expect, "operator[](i) reads slot (counter - i) mod size: the i-th previous sample");
-    __CPROVER_assert(cyclic_buffer_at(&cb, 0) == v, "operator[](0) is the sample just pushed");
+    char old_prev = i >= 1 ? cyclic_buffer_at(&cb, i - 1) : 0;      /* pre-state: the sample that will be i steps back after the push */
+    char old_last = cyclic_buffer_at(&cb, (int)size - 1);            /* pre-state: the oldest sample of a full buffer */
+    __CPROVER_assert(cyclic_buffer_at_c(&cb, i) == cyclic_buffer_at(&cb, i), "the const and the non-const operator[] address the same sample");
+    char r = cyclic_buffer_push(&cb, v);
+    __CPROVER_assert(cb.counter.counter >= 0 && cb.counter.counter < (int)size && cb.counter.size == (int)size && cb.data.m_size == size, "push: counter stays in [0,size), sizes kept");
+    __CPROVER_assert(cb._size == (cnt < size ? cnt + 1 : size), "size() counts pushes up to the capacity");
+    __CPROVER_assert(cyclic_buffer_at(&cb, 0) == v && cyclic_buffer_at_c(&cb, 0) == v, "operator[](0) is the sample just pushed (both overloads)");
+    if (i >= 1) __CPROVER_assert(cyclic_buffer_at(&cb, i) == old_prev && cyclic_buffer_at_c(&cb, i) == old_prev, "operator[](i) is the i-th previous sample: what operator[](i-1) was before the push (both overloads, wrap-around included)");
+    if (cnt == size) __CPROVER_assert(r == old_last, "push on a full buffer returns the sample it evicts (the oldest)");
 #endif
     CANARY("cyclic_buffer end reachable");
 }
